@@ -78,6 +78,22 @@ constants/tables.)
   `sorted`/`list`/copy/slice/operator result) -> discharged; an object that outlives the call (module-level object or an
   element read out of one, result of a callee under a memoising decorator, mutable default argument, the caller's own
   list) -> violated; anything else (external call, attribute, unpacking) -> undecided.
+* R11 (the XorEncoded view loses no bytes: every non-empty chunk that XorEncodedFile.read() reads from the underlying
+  file goes through the decode step - a block that reaches the end of a payload whose length is not a multiple of the
+  word size is complete only if the last, shorter word is decoded too): 1, 3 - the reads are located by role (`read` on
+  a receiver whose value term is an attribute of the instance), the chunk is the local(s) the result is bound to plus
+  their plain copies, the decode step is a statement with a resolved `utils.xor` call whose data operand mentions the
+  chunk.  2 - CFG reachability from the read to "function left / same read again / chunk overwritten" avoiding the
+  decode statements, with the branch edges removed that are infeasible under the named assumption "the chunk just
+  read is not empty".  4 - branch tests on the chunk are decided in the length domain (`_len_test`): `read(k)`, k a
+  constant of the code, returns 0..k bytes and every length occurs at the end of the data (library model of io), so a
+  non-empty chunk has a length in the interval [1, k]; truthiness, `len(chunk) <op> <constant>`, comparison with
+  b"" / None and not/and/or of those are mapped to sets of lengths (unions of intervals; and = intersection,
+  or = union, not = complement - transfer rules, no length is enumerated); an edge is infeasible iff its set is
+  empty.  A path that bypasses the decode step, uses the chunk nowhere and passes no test on the chunk outside that
+  vocabulary -> violated; bypass only through other uses of the chunk (another decode path, a give-back seek, a
+  content test) or no decode step located -> undecided.  That the decoded word reaches the returned bytes exactly
+  once is C09.R2's accounting (imported, R9).
 """
 
 from __future__ import annotations
@@ -102,6 +118,7 @@ FQ_BLOCKS = "beacon.iter_beacon_config_blocks"
 FQ_XORFILE = "xordecode.XorEncodedFile.from_file"
 FQ_BYTELIST = "beacon.make_byte_list"
 FQ_FROM_FILE = "beacon.BeaconConfig.from_file"
+FQ_XORREAD = "xordecode.XorEncodedFile.read"
 
 
 def run(ctx):
@@ -113,18 +130,23 @@ def run(ctx):
         "order and 'a found candidate ends the search' by path-sensitive CFG exploration over the boolean locals, "
         "first-candidate-wins (the candidate source is consumed once), exit analysis; a key list that is re-ordered in "
         "place is an object private to the call (R10: no memoised / module-level / caller-owned list carries the byte "
-        "frequency order of one payload into the next extraction). The scanner's offset algebra "
+        "frequency order of one payload into the next extraction); the XorEncoded view drops no non-empty chunk it read "
+        "from the underlying file - also not the last, shorter word of a payload (R11: CFG paths under 'chunk not "
+        "empty', chunk tests decided in the length domain). The scanner's offset algebra "
         "obligations of C15 are imported (R8). Decides these structural necessary conditions; does not decide that "
         "decoded settings equal the embedded ones for all payloads."
     )
     rep.not_decided = [
         "equality of extracted settings with the embedded block for all payloads/offsets/buffer sizes",
-        "container handling (PE / XorEncoded) - see C09, C18",
+        "container handling (PE / XorEncoded) - see C09, C18 (here only: position algebra / rolling key / read accounting of "
+        "the XorEncoded view as imported from C09 (R9) and 'no non-empty chunk is dropped' (R11); that read(n) keeps "
+        "reading until n bytes are decoded or the data ends is not decided)",
         "frequency ordering of the 254 left-over keys (only that the re-ordered list is private to the call, R10)",
         "search phases merged into one loop over a collection of file views are followed only when the collection is a "
         "literal list/tuple (optionally grown by append() before the loop); other collections are undecided",
     ]
-    rep.trusted_base = ["CPython ast", "networkx dominators", "C-definition parser (csverif.cdefs)"]
+    rep.trusted_base = ["CPython ast", "networkx dominators", "C-definition parser (csverif.cdefs)",
+                        "io model for R11: read(k) returns between 0 and k bytes, any such length at the end of the data"]
     rep.assumptions = ["iter_find_needle reports true offsets (C15 obligations, imported as R8)"]
     r1_r2(ctx)
     r3(ctx)
@@ -132,6 +154,7 @@ def run(ctx):
     r6_r7(ctx)
     r8(ctx)
     r10(ctx)
+    r11(ctx)
     # blocks inside XorEncoded stages are found by scanning and then re-reading the decoding file view: its position
     # algebra and nonce chaining (C09.R1-R3) are necessary conditions here as well
     from rules import c09
@@ -1735,6 +1758,239 @@ def r10(ctx):
         else:
             ctx.ob("R10", "ALIAS", f, text, verdict == "fresh", what + (why if verdict == "fresh" else "NOT private to this extraction: " + why +
                    " - the order left behind by an earlier payload decides the key priority of the next one"), n)
+
+
+# ============================================================================ R11
+# Sets of possible chunk lengths: sorted disjoint closed integer intervals [(lo, hi), ...], hi may be INF.
+INF = float("inf")
+
+
+def _iv_norm(xs):
+    out = []
+    for lo, hi in sorted(x for x in xs if x[0] <= x[1]):
+        if out and lo <= out[-1][1] + 1:
+            out[-1] = (out[-1][0], max(out[-1][1], hi))
+        else:
+            out.append((lo, hi))
+    return out
+
+
+def _iv_cap(a, b):
+    return _iv_norm([(max(l1, l2), min(h1, h2)) for l1, h1 in a for l2, h2 in b])
+
+
+def _iv_cup(a, b):
+    return _iv_norm(list(a) + list(b))
+
+
+def _iv_minus(dom, a):
+    """dom without a (a is normalised)"""
+    out = list(dom)
+    for lo, hi in a:
+        nxt = []
+        for l, h in out:
+            nxt.append((l, min(h, lo - 1)))
+            nxt.append((max(l, hi + 1), h))
+        out = [x for x in nxt if x[0] <= x[1]]
+    return _iv_norm(out)
+
+
+def _iv_show(a) -> str:
+    return ", ".join(f"{lo}" if lo == hi else (f"{lo}.." if hi == INF else f"{lo}..{hi}") for lo, hi in a) or "none"
+
+
+_FLIP = {ast.Lt: ast.Gt, ast.LtE: ast.GtE, ast.Gt: ast.Lt, ast.GtE: ast.LtE, ast.Eq: ast.Eq, ast.NotEq: ast.NotEq}
+
+
+def _len_test(v, test, at, names, dom):
+    """Length-domain reading of a branch test for a chunk (a read result held in one of the locals `names`) whose length
+    lies in `dom`: -> (T, F), the lengths for which the test may be true / may be false, or None when the test says
+    something about the chunk that is not a statement about its length.  Vocabulary: truthiness of the chunk / of
+    `len(chunk)`, `len(chunk) <op> <constant int>` (either side), comparison with the empty bytes constant, `is None`,
+    and not/and/or of those; sub-tests that do not mention the chunk are free (may be true, may be false).  Transfer
+    rules of the interval domain only: for a fixed length an `and` holds iff all its operands hold (intersection), an
+    `or` iff one does (union), `not` swaps."""
+    def mentions(e):
+        return any(isinstance(x, ast.Name) and x.id in names for x in ast.walk(e))
+
+    def is_chunk(e):
+        e = strip_cast(e)
+        return isinstance(e, ast.Name) and e.id in names
+
+    def is_len(e):
+        e = strip_cast(e)
+        return isinstance(e, ast.Call) and dotted(e.func) == "len" and "len" not in v.locals and len(e.args) == 1 and not e.keywords and is_chunk(e.args[0])
+
+    def const(e):
+        t = v.term(e, at)
+        if t[0] == "global":
+            t = v._global_const(t[1]) or t
+        return t if t[0] == "const" else None
+
+    def ev(e):
+        e = strip_cast(e)
+        if not mentions(e):
+            return dom, dom
+        if is_chunk(e) or is_len(e):
+            return dom, _iv_cap(dom, [(0, 0)])
+        if isinstance(e, ast.Call) and dotted(e.func) == "bool" and "bool" not in v.locals and len(e.args) == 1 and not e.keywords:
+            return ev(e.args[0])
+        if isinstance(e, ast.UnaryOp) and isinstance(e.op, ast.Not):
+            r = ev(e.operand)
+            return None if r is None else (r[1], r[0])
+        if isinstance(e, ast.BoolOp):
+            rs = [ev(x) for x in e.values]
+            if any(r is None for r in rs):
+                return None
+            t, f = rs[0]
+            for t2, f2 in rs[1:]:
+                if isinstance(e.op, ast.And):
+                    t, f = _iv_cap(t, t2), _iv_cup(f, f2)
+                else:
+                    t, f = _iv_cup(t, t2), _iv_cap(f, f2)
+            return t, f
+        if isinstance(e, ast.Compare) and len(e.ops) == 1:
+            l, op, r = e.left, type(e.ops[0]), e.comparators[0]
+            if not is_len(l) and not is_chunk(l):
+                l, r, op = r, l, _FLIP.get(op, op)
+            if mentions(r):
+                return None
+            c = const(r)
+            sat = None
+            if is_len(l) and c is not None and c[1] == "int":
+                k = c[2]
+                sat = {ast.Lt: [(-INF, k - 1)], ast.LtE: [(-INF, k)], ast.Gt: [(k + 1, INF)], ast.GtE: [(k, INF)], ast.Eq: [(k, k)],
+                       ast.NotEq: [(-INF, k - 1), (k + 1, INF)]}.get(op)
+            elif is_chunk(l) and c is not None and c[1] in ("bytes", "NoneType") and not c[2]:
+                # equal to the empty bytes constant iff the length is 0; a read result is never None
+                empty = [(0, 0)] if c[1] == "bytes" else []
+                sat = {ast.Eq: empty, ast.Is: empty if c[1] == "NoneType" else None, ast.NotEq: _iv_minus([(-INF, INF)], empty),
+                       ast.IsNot: _iv_minus([(-INF, INF)], empty) if c[1] == "NoneType" else None}.get(op)
+            if sat is None:
+                return None
+            t = _iv_cap(dom, sat)
+            return t, _iv_minus(dom, t)
+        return None
+
+    return ev(test)
+
+
+def r11(ctx):
+    """The XorEncoded view hands out every byte of the payload: whatever the decode loop of XorEncodedFile.read() reads
+    from the underlying file and is not empty goes through the decode step.  A block that reaches the end of the payload
+    is only extracted completely if the last word - which is shorter than the others unless the payload length happens
+    to be a multiple of the word size - is decoded as well.  The paths of read() are followed from each read of the
+    underlying file under the named assumption "the chunk just read is not empty"; branch tests on the chunk are
+    decided in the length domain (`read(k)` returns between 0 and k bytes, every length in between occurs at the end
+    of the data)."""
+    f = ctx.repo.func(FQ_XORREAD)
+    v = _Val(ctx, f)
+    cfg, fv = v.cfg, v.fv
+    text = "every non-empty chunk read from the underlying file is decoded"
+    if not v.params:
+        ctx.undecided("R11", "DOM", f, text, "read() is not a method", f.node)
+        return
+    self_t = ("param", v.params[0])
+    reads = []
+    for c in fn_calls(f.node):
+        if isinstance(c.func, ast.Attribute) and c.func.attr == "read" and fv.enclosing(c, (ast.Lambda, ast.FunctionDef, ast.AsyncFunctionDef)) is None:
+            rt = v.term(c.func.value, c)
+            if rt[0] == "attr" and rt[1] == self_t:
+                reads.append(c)
+    if not reads:
+        ctx.undecided("R11", "DOM", f, text, "no read() on a file object held by the view located in XorEncodedFile.read()", f.node)
+        return
+    handlers = [nd for nd, s in cfg.stmt.items() if isinstance(s, ast.ExceptHandler)]
+    for R in reads:
+        rst = fv.stmt_of(R)
+        if not (isinstance(rst, (ast.Assign, ast.AnnAssign)) and strip_cast(rst.value) is R and cfg.has(rst)):
+            ctx.undecided("R11", "DOM", f, text, f"the result of `{src(R)}` is not bound to a local: its way through the loop is not followed", R)
+            continue
+        tgts = rst.targets if isinstance(rst, ast.Assign) else [rst.target]
+        if not all(isinstance(t, ast.Name) for t in tgts):
+            ctx.undecided("R11", "DOM", f, text, f"the result of `{src(R)}` is not bound to a plain local", R)
+            continue
+        names = {t.id for t in tgts}
+        # plain copies of the chunk (`word = chunk`) are the chunk
+        copies = []
+        grown = True
+        while grown:
+            grown = False
+            for st in statements(f.node):
+                if (isinstance(st, ast.Assign) and len(st.targets) == 1 and isinstance(st.targets[0], ast.Name) and st.targets[0].id not in names
+                        and isinstance(strip_cast(st.value), ast.Name) and strip_cast(st.value).id in names
+                        and all(isinstance(val, ast.AST) and isinstance(strip_cast(val), ast.Name) and strip_cast(val).id in names
+                                for _s, val in assignments_to(f.node, st.targets[0].id))):
+                    names.add(st.targets[0].id)
+                    grown = True
+        for st in statements(f.node):
+            if isinstance(st, ast.Assign) and len(st.targets) == 1 and isinstance(st.targets[0], ast.Name) and st.targets[0].id in names \
+                    and isinstance(strip_cast(st.value), ast.Name) and strip_cast(st.value).id in names:
+                copies.append(st)
+        size = v.term(R.args[0], R) if R.args and not R.keywords else ("opaque", "?")
+        if size[0] == "global":
+            size = v._global_const(size[1]) or size
+        k = size[2] if size[0] == "const" and size[1] == "int" and size[2] >= 1 else INF
+        dom = [(1, k)]
+        Rs = cfg.node(rst)
+        infeasible, unknown_tests, decode, uses, targets, both = [], [], [], [], [EXIT, Rs], []
+        for nd, st in cfg.stmt.items():
+            if isinstance(st, (ast.If, ast.While)):
+                if not any(isinstance(x, ast.Name) and x.id in names for x in ast.walk(st.test)):
+                    continue
+                r = _len_test(v, st.test, st, names, dom)
+                if r is None:
+                    unknown_tests.append(nd)
+                    continue
+                if not r[0]:
+                    infeasible.append(cfg.edge_node(st, "true"))
+                if not r[1]:
+                    infeasible.append(cfg.edge_node(st, "false"))
+                if r[0] and r[1] and r[0] != dom:
+                    both.append(f"`{src(st.test)}` holds for chunk lengths {_iv_show(r[0])}")
+                continue
+            if nd == Rs or any(st is c for c in copies):
+                continue
+            if isinstance(st, (ast.For, ast.AsyncFor)):
+                own = [st.iter, st.target]
+            elif isinstance(st, (ast.With, ast.AsyncWith)):
+                own = [x for it in st.items for x in (it.context_expr, it.optional_vars) if x is not None]
+            elif isinstance(st, (ast.Try, ast.ExceptHandler, ast.FunctionDef, ast.AsyncFunctionDef, ast.ClassDef)) or st.__class__.__name__ == "TryStar":
+                own = []
+            else:
+                own = [st]
+            loads = [x for e in own for x in ast.walk(e) if isinstance(x, ast.Name) and x.id in names and isinstance(x.ctx, ast.Load)]
+            stores = [x for e in own for x in ast.walk(e) if isinstance(x, ast.Name) and x.id in names and isinstance(x.ctx, ast.Store)]
+            if loads:
+                uses.append(nd)
+                for c in (x for e in own for x in ast.walk(e) if isinstance(x, ast.Call)):
+                    if v.callee_fq(c) == FQ_XOR:
+                        d = (v.args(c) or {}).get("data")
+                        if d is not None and any(isinstance(x, ast.Name) and x.id in names for x in ast.walk(d)):
+                            decode.append(nd)
+            elif stores:
+                targets.append(nd)  # the chunk is overwritten (next read, reset) before anything looked at it
+
+        def escapes(avoid):
+            av = list(avoid) + infeasible + handlers
+            return next((t for t in targets if cfg.reaches(Rs, t, avoiding=av)), None)
+
+        lens = f"a chunk of {_iv_show(dom)} bytes"
+        if decode and escapes(decode) is None:
+            ctx.ob("R11", "DOM", f, text, True, f"after `{src(R)}` every path on which the chunk is not empty reaches the decode step (xor with the rolling key) "
+                   "before the function is left, the next chunk is read or the chunk is overwritten", R)
+            continue
+        t = escapes(decode + uses + unknown_tests)
+        if t is not None:
+            path = " -> ".join(cfg.witness_path(Rs, t, avoiding=decode + uses + unknown_tests + infeasible + handlers)[-6:])
+            ctx.ob("R11", "DOM", f, text, False, f"{lens} read by `{src(R)}` can be dropped: it is consumed from the underlying file but neither decoded nor "
+                   f"looked at again ({path})" + ("; " + "; ".join(both) if both else "") + " - the view loses these bytes (the last, shorter word of a "
+                   "payload whose length is not a multiple of the word size; a configuration block that ends there is cut short)", R)
+        elif not decode:
+            ctx.undecided("R11", "DOM", f, text, f"no decode step (utils.xor applied to the chunk) located for `{src(R)}`", R)
+        else:
+            ctx.undecided("R11", "DOM", f, text, f"after `{src(R)}` the decode step can be bypassed, but only through statements that use the chunk in a way "
+                          "this rule does not follow (another decode path, a give-back, a test on the chunk's content)", R)
 
 
 # ============================================================================ R8
